@@ -517,6 +517,7 @@ fn main() {
             }
             "dump-facts" => return dbx::dump_facts(),
             "dbopen" => return dbx::dbopen(&args[2..]),
+            "dbhold" => return dbx::dbhold(&args[2..]),
             "dbcount" => return dbx::dbcount(&args[2..]),
             "dbstale" => return dbx::dbstale(&args[2..]),
             "dbforeign" => return dbx::dbforeign(&args[2..]),
